@@ -298,6 +298,60 @@ def run(ctx: Ctx):
                        continuous=False, rev=bool(k % 4 == 3), speed=0.25) for k in range(ne)]
     scen.e2e_stream(ctx, "whole-run-split-pvars", ecases, "Ladim.C06.pvars_complete / Ladim.C05.values_follow_* (particle variables at index pid in every file)")
 
+    # ---- the output module given a state that still holds dead particles (no removal in between): a record holds exactly the
+    # living particles, in order, with their own values; the dead are gone from the state afterwards (sparse layout)
+    import numpy as np
+    from ladim.out_netcdf import Output
+    from ladim.state import State
+    from ladim.timekeeper import TimeKeeper
+    from harness import lab
+    rr = np.random.RandomState(ctx.seed + 57)
+    for k in range(40 if ctx.thorough else 10):
+        n0 = int(rr.randint(2, 7)); n1 = int(rr.randint(0, 4))
+        dead1 = sorted(set(int(x) for x in rr.randint(0, n0, size=int(rr.randint(1, n0)))))
+        dead2 = sorted(set(int(x) for x in rr.randint(0, n0 + n1, size=int(rr.randint(0, 3)))))
+        case = dict(first_release=n0, killed_before_record_1=dead1, second_release=n1, killed_before_record_2=dead2)
+        ctx.case("write-with-dead", [k, n0, str(dead1), n1, str(dead2)], sample=case, nontrivial=True)
+        with lab.scratch() as d:
+            class _Rel:
+                total_particle_count = n0 + n1
+            st = State()
+            tk = TimeKeeper(start="2020-01-01 12", stop="2020-01-02 12", dt=1800)
+            out = Output(modules=dict(time=tk, release=_Rel(), grid=None, state=st), filename=d / "o.nc", output_period=np.timedelta64(1800, "s"),
+                         instance_variables=dict(pid=dict(encoding=dict(datatype="i4"), attributes={}), X=dict(encoding=dict(datatype="f8"), attributes={})))
+            alive_now = {}
+            expect = []
+            st.append(X=100.0 + np.arange(n0), Y=1.0, Z=1.0)
+            for p_ in range(n0):
+                alive_now[p_] = 100.0 + p_
+            try:
+                out.write(st); expect.append(dict(alive_now))
+                a = st.alive.copy(); a[np.isin(st.pid, dead1)] = False; st["alive"] = a
+                for p_ in dead1:
+                    alive_now.pop(p_, None)
+                out.write(st); expect.append(dict(alive_now))
+                if n1:
+                    st.append(X=200.0 + np.arange(n1), Y=1.0, Z=1.0)
+                    for q in range(n1):
+                        alive_now[n0 + q] = 200.0 + q
+                a = st.alive.copy(); a[np.isin(st.pid, dead2)] = False; st["alive"] = a
+                for p_ in dead2:
+                    alive_now.pop(p_, None)
+                out.write(st); expect.append(dict(alive_now))
+                out.close()
+                recs = lab.records(lab.read_out(d / "o.nc"), vars_=("pid", "X"))
+                got = [dict(zip(r_["pid"], r_["X"])) for r_ in recs]
+                bad = None
+                if got != expect:
+                    bad = dict(what="records", implementation=[sorted(g_.items()) for g_ in got], expected=[sorted(e_.items()) for e_ in expect])
+                elif any(list(r_["pid"]) != sorted(r_["pid"]) for r_ in recs):
+                    bad = dict(what="identifiers not increasing in a record", implementation=[r_["pid"] for r_ in recs])
+            except Exception as e:  # noqa: BLE001
+                bad = dict(what="raised", implementation=type(e).__name__ + ": " + str(e)[:100])
+            if bad:
+                ctx.violation("failing-input", "write-with-dead", case, dict(bad, theorem="Ladim.C05.compactify_is_filter / Ladim.C06.record_faithful (a record holds exactly the living particles)"),
+                              tags=dict(first="write-with-dead"))
+
     # ---- a release file that is not ordered in time: the rows of two release times listed alternately, many of each.
     # Identifiers follow the release order: time first, then the position in the file.
     icases = []
